@@ -205,7 +205,12 @@ fn find_missing_module(
     return (module, (&[], &[]));
   }
 
-  match module.get_module(path[0]) {
+  if index >= path.len() {
+    return (module, path.split_at(path.len()));
+  }
+
+  // each level is looked up by its own segment of the path
+  match module.get_module(path[index]) {
     Some(module) => find_missing_module(module, path, index + 1),
     None => (module, path.split_at(index)),
   }
